@@ -1605,7 +1605,9 @@ CLEANUP:
 
 /* A bound that moves to infinity cannot keep a non-basic column "at" it: the
  * stored basis would put the column at the value of the infinity encoding in
- * the next solve.  Move such a column to its other bound (free if none). */
+ * the next solve; a column that was non-basic free (at 0) and now has a finite
+ * bound would stay at 0, possibly outside its bounds.  Move such a column to
+ * a bound it has (free if none). */
 static void repair_bound_status (
 	EGLPNUM_TYPENAME_QSdata * p,
 	int indx)
@@ -1620,7 +1622,8 @@ static void repair_bound_status (
 	lofin = EGLPNUM_TYPENAME_EGlpNumIsNeqq (qslp->lower[j], EGLPNUM_TYPENAME_ILL_MINDOUBLE);
 	upfin = EGLPNUM_TYPENAME_EGlpNumIsNeqq (qslp->upper[j], EGLPNUM_TYPENAME_ILL_MAXDOUBLE);
 	st = &(p->basis->cstat[indx]);
-	if ((*st == QS_COL_BSTAT_UPPER && !upfin) || (*st == QS_COL_BSTAT_LOWER && !lofin))
+	if ((*st == QS_COL_BSTAT_UPPER && !upfin) || (*st == QS_COL_BSTAT_LOWER && !lofin) ||
+			(*st == QS_COL_BSTAT_FREE && (lofin || upfin)))
 	{
 		*st = lofin ? QS_COL_BSTAT_LOWER : (upfin ? QS_COL_BSTAT_UPPER : QS_COL_BSTAT_FREE);
 		p->factorok = 0;						/* reload the basis from p->basis */
